@@ -71,7 +71,7 @@ impl Engine for StacksEngine {
             6 => 257,
             _ => rng.range(1, 12) as usize,
         };
-        let n = rng.range(5, if tier == Tier::Quick { 150 } else { 400 }) as usize;
+        let n = rng.range(5, if cfg!(miri) { 25 } else if tier == Tier::Quick { 150 } else { 400 }) as usize;
         // mode: hover near empty, hover near full, random walk
         let mode = rng.below(3);
         let mut ops = Vec::new();
